@@ -116,6 +116,30 @@ def mixed(a):
     return a
 
 
+class OldCls:
+    pass
+
+
+def uses_oldparam(a, old=None):
+    return a
+
+
+class Basket:
+    def __init__(self, n):
+        self.n = n
+
+    def total(self):
+        return self.n
+
+
+class Tags(list):
+    def append(self, x):
+        list.append(self, x)
+
+    def first(self):
+        return self[0]
+
+
 def renamed(a, b):
     return a
 '''
@@ -136,9 +160,14 @@ MUTATIONS = {
     "module-removed": ("uses_lib", lambda s: s.replace("from vfstalelib_{id} import LibCls\n", "")),
     "submodule-removed": ("uses_sub", lambda s: s.replace("from vfstalepkg_{id}.sub import SubCls\n", "")),
     "intermediate-package-removed": ("uses_deep", lambda s: s.replace("from vfstalepkg_{id}.mid.deep import DeepCls\n", "")),
+    # two stale kinds in one row: the parameter is gone from the signature and so is the class traced for it
+    "param-and-its-class-removed": ("uses_oldparam", lambda s: s.replace("class OldCls:\n    pass\n", "").replace("def uses_oldparam(a, old=None):", "def uses_oldparam(a):")),
+    # the method is gone from the class, but a base class still supplies the name through a C implementation
+    "dunder-method-removed": ("Basket.__init__", lambda s: s.replace("    def __init__(self, n):\n        self.n = n\n\n", "    n = 0\n\n")),
+    "override-of-builtin-method-removed": ("Tags.append", lambda s: s.replace("    def append(self, x):\n        list.append(self, x)\n\n", "")),
     "nested-class-removed": ("uses_inner", lambda s: s.replace("    class Inner:\n        pass\n", "    pass\n")),
 }
-VALID = ["keep1", "keep2", "K.keepm", "K.keepc", "renamed", "mixed"]
+VALID = ["keep1", "keep2", "K.keepm", "K.keepc", "renamed", "mixed", "Basket.total", "Tags.first"]
 
 
 def cut_def(src, name):
@@ -187,6 +216,11 @@ def make_rows(mod, id_):
         "uses_sub": [CallTrace(mod.uses_sub, {"a": Optional[sub.SubCls]}, int)],
         "uses_inner": [CallTrace(mod.uses_inner, {"a": mod.Outer.Inner}, int)],
         "uses_deep": [CallTrace(mod.uses_deep, {"a": deep.DeepCls}, int), CallTrace(mod.uses_deep, {"a": List[deep.DeepCls]}, int)],
+        "uses_oldparam": [CallTrace(mod.uses_oldparam, {"a": int, "old": mod.OldCls}, int), CallTrace(mod.uses_oldparam, {"a": str, "old": List[mod.OldCls]}, str)],
+        "Basket.__init__": [CallTrace(mod.Basket.__init__, {"self": mod.Basket, "n": int}, NoneType)],
+        "Tags.append": [CallTrace(mod.Tags.append, {"self": mod.Tags, "x": int}, NoneType), CallTrace(mod.Tags.append, {"self": mod.Tags, "x": str}, NoneType)],
+        "Basket.total": [CallTrace(mod.Basket.total, {"self": mod.Basket}, int)],
+        "Tags.first": [CallTrace(mod.Tags.first, {"self": mod.Tags}, int)],
         # one function with decodable rows and rows that are stale only through a class they mention
         "mixed": [CallTrace(mod.mixed, {"a": int}, int), CallTrace(mod.mixed, {"a": str}, str)],
         "mixed:stale-if:arg-class-removed": [CallTrace(mod.mixed, {"a": mod.Arg1}, mod.Arg1)],
